@@ -390,6 +390,7 @@ pub fn gen_msg_program(id: &str, tape: Vec<u32>, opts: &GenOpts) -> Program {
             module: mods[i].to_string(),
             trait_name,
             explicit_as,
+            alias: None,
             assoc_names: {
                 // a third of the interfaces name their associated types conventionally instead of A0, A1..
                 const POOL: &[&str] = &["Item", "Param", "Data", "T", "K", "V", "Msg", "Value"];
@@ -405,6 +406,15 @@ pub fn gen_msg_program(id: &str, tape: Vec<u32>, opts: &GenOpts) -> Program {
             methods: ms,
             msg_attrs,
         });
+    }
+    // two interfaces whose traits have the same identifier in different modules (as with
+    // `cw1::counter::Counter` / `cw2::counter::Counter`): told apart by their `as` names only
+    if interfaces.len() >= 2 && t.chance(30) {
+        for (k, i) in interfaces.iter_mut().take(2).enumerate() {
+            i.trait_name = "Shared".to_string();
+            i.explicit_as = true;
+            i.alias = Some(format!("Shared{}", ["A", "B"][k]));
+        }
     }
     // legacy reply handlers (no `sv::features(replies)`): the entry point hands the raw Reply
     // to the first declared one
@@ -471,6 +481,7 @@ pub fn gen_msg_program(id: &str, tape: Vec<u32>, opts: &GenOpts) -> Program {
             methods,
             entry_points: true,
             query_err_param,
+            lifetime: false,
         },
         interfaces,
     }
@@ -675,6 +686,7 @@ pub fn gen_reply_program(id: &str, tape: Vec<u32>, opts: &GenOpts, any_order: bo
             methods,
             entry_points: true,
             query_err_param: None,
+            lifetime: false,
         },
         interfaces: vec![],
     }
